@@ -500,7 +500,9 @@ def rule_emitted_text_parses(cm, rep, rid, depth=3):
     rep.rule(rid, 'for every code tree the compiler can build (mini-language trees to depth %d, with empty bodies where the '
                   'flow analysis says a list may be empty) the templates yield text that ast.parse accepts, whose module '
                   'level holds exactly one def per function node named name_<n>, each def being a generator' % depth)
-    ts = cm.templates
+    ts = cm.renderer
+    if cm.renderer_note:
+        rep.note(rid, cm.renderer_note)
     for p in ts.problems:
         rep.violation(rid, 'template:%s:%s' % (p.func.name, p.kind), 'emitter: %s' % p.text, p.func.loc(p.node) if p.node is not None else p.func.loc())
     where = cm.comp.module.relpath
@@ -596,7 +598,7 @@ def rule_nesting_bound(cm, rep, rid, limit=20):
     rep.rule(rid, 'clauses of any length either compile to text whose static block nesting stays within CPython\'s limit '
                   '(%d nested loop blocks) or are rejected by the emitter: chains of nested loops of depth 1..40 are rendered from '
                   'the templates' % limit)
-    ts = cm.templates
+    ts = cm.renderer
     where = ts.gen_cls.loc()
     worst = None
     raised_at = None
@@ -1024,7 +1026,7 @@ def rule_flags_only_comments(cm, rep, rid):
                 else:
                     rep.ok(rid, key, 'only debug output depends on the flag', f.loc(s))
     rep.minimum('debug-flag tests', n, 3)
-    ts = cm.templates
+    ts = cm.renderer
     prog = Node('YPCodeProgram', functions=[Node('YPCodeFunction', name='p', args=[], body=[Node('YPCodeYieldFalse')])])
     outs = []
     for flag in ('', True):
